@@ -246,7 +246,7 @@ func editFamilies(tier string) []*core.Family {
 			}
 			return editCase{si, pairOps[si][a], pairOps[si][b]}
 		}
-		fams = append(fams, mk("b-edit2", tot, get, 300))
+		fams = append(fams, mk("b-edit2", tot, get, 240))
 	}
 	return fams
 }
